@@ -290,7 +290,7 @@ def coq_terms(case, out):
         return []
     k = case["kind"]
     T = []
-    if k == "order" and case["solver"] in L.SOLVERS:
+    if k == "order" and case["solver"] in L.MODELLED:
         for r in out["runs"]:
             full = dict(case, ops=[case["cfg"][i] for i in r["perm"]] + case["tail"])
             if L.modelled(full):
